@@ -19,6 +19,19 @@ def _strict(x):
     return x
 
 
+def _chains(cases, tier, spec):
+    """chains of three different cases to be run in one process each"""
+    k = spec.get(tier, 0) if isinstance(spec, dict) else int(spec)
+    plain = [c for c in cases if isinstance(c, dict) and c.get("kind") not in ("repo_suite", "asset")
+             and "asset" not in c]
+    n = len(plain)
+    k = min(k, n // 3)
+    out = []
+    for j in range(k):
+        out.append({"__chain__": [plain[j], plain[(j + n // 3) % n], plain[(j + 2 * (n // 3)) % n]]})
+    return out
+
+
 def main():
     ap = argparse.ArgumentParser()
     ap.add_argument("prop")
@@ -45,8 +58,26 @@ def main():
 
     def prog(d, n):
         print(f"[{pid} {tier}] {d}/{n} cases, {time.time()-t0:.0f}s", flush=True)
-    results = runner.run_cases(cases, mod.run_case, timeout=timeout, quiet=not a.verbose,
+    def run_any(case, work, rec):
+        """one case, or a chain of cases run one after the other in the same process (whatever
+        one run leaves behind in module / class level state meets the next input)"""
+        if isinstance(case, dict) and "__chain__" in case:
+            for j, c in enumerate(case["__chain__"]):
+                sub = os.path.join(work, f"k{j}")
+                os.makedirs(sub, exist_ok=True)
+                mod.run_case(c, sub, rec)
+                rec.count("chained_case_runs")
+            return
+        mod.run_case(case, work, rec)
+
+    chains = []
+    if not a.replay:
+        chains = _chains(cases, tier, getattr(mod, "CHAIN", {"quick": 6, "thorough": 60}))
+    results = runner.run_cases(cases, run_any, timeout=timeout, quiet=not a.verbose,
                                progress=prog)
+    if chains:
+        results += runner.run_cases(chains, run_any, timeout=3 * timeout, quiet=not a.verbose, progress=prog)
+        cases = list(cases) + chains
     # ---- merge
     evals = held = skipped = 0
     nontriv = set()
